@@ -243,6 +243,35 @@ def make_classes(r, tag, n_classes=6, n_enums=3):
             return o
         C._make = staticmethod(_make)
         classes.append(C)
+        if i % 4 == 1:
+            # a class with its own wire format (documented: "a specialization of serialize/deserialize"): it nests another
+            # object by calling that object's dumpb() from inside its own serialize() - a re-entrant use of the encoder
+            _COUNTER[0] += 1
+            from mpgameserver import serializable as _S
+
+            def _ser(self, stream, **kwargs):
+                _S.serialize_value(stream, self.tag)
+                inner = self.body.dumpb() if self.body is not None else b""
+                _S.serialize_value(stream, inner)
+                _S.serialize_value(stream, self.tail)
+
+            def _deser(self, stream, **kwargs):
+                self.tag = _S.deserialize_value(stream, **kwargs)
+                inner = _S.deserialize_value(stream, **kwargs)
+                self.body = _S.Serializable.loadb(inner) if inner else None
+                self.tail = _S.deserialize_value(stream, **kwargs)
+                return self
+            Env = type("SE%s_%d" % (tag, _COUNTER[0]), (Serializable,), {"__annotations__": {"tag": int, "body": object, "tail": str}, "tag": 0, "body": None, "tail": "",
+                                                                   "serialize": _ser, "deserialize": _deser})
+
+            def _make_env(gen, depth, _E=Env, _inner=C):
+                o = _E()
+                o.tag = gen.integer()
+                o.body = _inner._make(gen, depth + 1) if gen.r.random() < 0.85 else None
+                o.tail = gen.string()
+                return o
+            Env._make = staticmethod(_make_env)
+            classes.append(Env)
         if i % 3 == 0:
             # a class hierarchy: a subclass of a user class, with fields of its own (the library encodes the fields a class
             # declares itself, under the subclass's own type id)
